@@ -133,6 +133,50 @@ Theorem c20_starts_openid : forall v r d, cf_starts v r d = true -> ~ cf_is_prox
 Proof. exact cf_starts_openid. Qed.
 Print Assumptions c20_starts_openid.
 
+(** The discovery document must support the configured values LITERALLY: the configured authentication level is itself
+    an element of acr_values_supported, or it is one of the two legacy names (Level3 / Level4) and its documented
+    translation (idporten-loa-substantial / idporten-loa-high) is an element; the configured locale and signing
+    algorithm are elements of their lists. No ordering of levels is involved. *)
+Theorem c20_support_lists_literal : forall v r d, cf_starts v r d = true -> ~ cf_is_proxy (cf_resolve_all r) ->
+  let c := cf_resolve_all r in
+  (cf_acr c = [] \/ In (cf_acr c) (cf_d_acrs d) \/
+   (cf_acr c = cf_lit_level3 /\ In cf_lit_loa_substantial (cf_d_acrs d)) \/
+   (cf_acr c = cf_lit_level4 /\ In cf_lit_loa_high (cf_d_acrs d))) /\
+  (cf_locale c = [] \/ In (cf_locale c) (cf_d_locales d)) /\
+  In (cf_alg c) (cf_d_algs d).
+Proof. exact cf_starts_support_literal. Qed.
+Print Assumptions c20_support_lists_literal.
+
+(** ... and a configuration whose level is not advertised in that literal sense never starts (whatever else is advertised). *)
+Theorem c20_unadvertised_acr_refused : forall v r d, ~ cf_is_proxy (cf_resolve_all r) ->
+  ~ cf_acr_literal (cf_acr (cf_resolve_all r)) (cf_d_acrs d) -> cf_starts v r d = false.
+Proof. exact cf_unadvertised_acr_refused. Qed.
+Print Assumptions c20_unadvertised_acr_refused.
+
+(** The modern names have no translation: configured idporten-loa-substantial needs that very string in the list;
+    configured Level3 needs Level3 or idporten-loa-substantial. A provider advertising only idporten-loa-high supports neither. *)
+Theorem c20_substantial_needs_substantial : forall v r d, cf_starts v r d = true -> ~ cf_is_proxy (cf_resolve_all r) ->
+  cf_acr (cf_resolve_all r) = cf_lit_loa_substantial -> In cf_lit_loa_substantial (cf_d_acrs d).
+Proof. exact cf_substantial_needs_substantial. Qed.
+Print Assumptions c20_substantial_needs_substantial.
+
+Theorem c20_level3_needs_level3_or_substantial : forall v r d, cf_starts v r d = true -> ~ cf_is_proxy (cf_resolve_all r) ->
+  cf_acr (cf_resolve_all r) = cf_lit_level3 -> In cf_lit_level3 (cf_d_acrs d) \/ In cf_lit_loa_substantial (cf_d_acrs d).
+Proof. exact cf_level3_needs_level3_or_substantial. Qed.
+Print Assumptions c20_level3_needs_level3_or_substantial.
+
+(** Non-vacuity / the concrete rows: substantial or Level3 configured with only `high` advertised is refused with the acr
+    error (as is high with only substantial, and a modern name with only the legacy name advertised); literal and
+    translated matches start. *)
+Example c20_nonvacuous_higher_level_not_enough :
+  cf_run cf_cur (cf_ex_acr cf_lit_loa_substantial) (cf_ex_disc_acrs [cf_lit_loa_high]) = Zpos cf_E_acr /\
+  cf_run cf_cur (cf_ex_acr cf_lit_level3) (cf_ex_disc_acrs [cf_lit_loa_high]) = Zpos cf_E_acr /\
+  cf_run cf_cur (cf_ex_acr cf_lit_loa_substantial) (cf_ex_disc_acrs [cf_lit_loa_high; cf_lit_loa_substantial]) = 0%Z /\
+  cf_run cf_cur (cf_ex_acr cf_lit_level3) (cf_ex_disc_acrs [cf_lit_loa_substantial]) = 0%Z.
+Proof. destruct cf_higher_level_not_enough as (H1 & H2 & _ & _ & _ & H6 & H7 & _). repeat split; assumption. Qed.
+Example c20_nonvacuous_not_proxy : ~ cf_is_proxy (cf_resolve_all (cf_ex_acr cf_lit_loa_substantial)).
+Proof. intros [H _]. vm_compute in H. discriminate. Qed.
+
 (** Upstream address parts: both or neither, port in 1..65535. *)
 Theorem c20_starts_upstream : forall v r d, cf_starts v r d = true ->
   let c := cf_resolve_all r in
